@@ -4,7 +4,7 @@
    size are updated by a compare-and-swap retry loop (the class Model.Metrics.is_rmw_loop, decided on the translated
    control-flow graph) — not by load-compare-store, a single attempt or a plain store —, time stamps are only stored, and no statement was left untranslated. *)
 From Coq Require Import List ZArith NArith Bool Lia.
-From GV Require Import Model.Metrics Gen.MetricsProg Model.Footprint Gen.Globals.
+From GV Require Import Model.Metrics Gen.MetricsProg Model.Footprint Gen.Globals Model.LockOrder Gen.LockTable.
 Import ListNotations.
 
 Lemma metrics_progs_ok : forallb (prog_ok metrics_roles) metrics_progs = true.
@@ -59,4 +59,10 @@ Qed.
    two operations of synchronisation primitives (sync/atomic, sync.Pool, sync.Once, sync.Map, mutexes) — except on
    the cells listed as known findings *)
 Lemma globals_ok : table_ok known_cells sites = true.
+Proof. vm_compute. reflexivity. Qed.
+
+(* lock discipline: the rank witness (a topological order computed by lib/gen10.py) puts, at every Lock / RLock site of
+   the regenerated acquisition table, the acquired mutex strictly above every mutex that may be held there: no mutex is
+   taken while it may already be held (in any mode), and the order "held before acquired" has no cycle *)
+Lemma lock_order_ok : acq_table_ok lock_ranks acquisitions = true.
 Proof. vm_compute. reflexivity. Qed.
